@@ -929,6 +929,65 @@ def build_cert(tbs: dict, signer_key: ecdsa.SigningKey, issuer=None, *, subject_
     return encode_cert({"version": version, "type": cert_type, "issuer": iss, "toBeSigned": tbs, "signature": sig})
 
 
+# --- unusual (but decodable) encodings of signatures and public keys: what a verifier must not accept unchecked
+SIG_ALGS = ("ecdsaNistP256Signature", "ecdsaBrainpoolP256r1Signature", "ecdsaBrainpoolP384r1Signature", "ecdsaNistP384Signature",
+            "sm2Signature")
+R_FORMS = ("x-only", "fill", "compressed-y-0", "compressed-y-1", "uncompressed")
+KEY_FORMS = ("uncompressedP256", "compressed")
+
+
+def _stretch(b: bytes, n: int) -> bytes:
+    """Exactly n octets derived from b (cut, or extended by a hash chain)."""
+    out = bytes(b)
+    while len(out) < n:
+        out += hashlib.sha256(out + b"stretch").digest()
+    return out[:n]
+
+
+def crafted_signature(alg: str, r_form: str, r: bytes, s: bytes) -> tuple:
+    """IEEE 1609.2 Signature value of CHOICE `alg` whose r is given in point form `r_form`, built from raw octets.
+    Nothing is signed here: r, s are whatever the caller hands in (random, or copied from a genuine signature)."""
+    if alg == "sm2Signature":
+        return (alg, {"rSig": _stretch(r, 32), "sSig": _stretch(s, 32)})
+    n = 48 if alg.endswith("384r1Signature") or alg == "ecdsaNistP384Signature" else 32
+    r, s = _stretch(r, n), _stretch(s, n)
+    if r_form == "fill":
+        pt = ("fill", None)
+    elif r_form == "uncompressed":
+        pt = ("uncompressedP%d" % (n * 8), {"x": r, "y": _stretch(s + r, n)})
+    else:
+        pt = (r_form, r)
+    return (alg, {"rSig": pt, "sSig": s})
+
+
+def public_key_value_form(sk_or_vk, form: str = "uncompressedP256") -> tuple:
+    """PublicVerificationKey value of an ecdsa P-256 key, uncompressed or compressed (compressed-y-0/1 by the parity of y)."""
+    if form == "uncompressedP256":
+        return public_key_value(sk_or_vk)
+    vk = sk_or_vk.verifying_key if hasattr(sk_or_vk, "verifying_key") else sk_or_vk
+    pt = vk.pubkey.point
+    return ("ecdsaNistP256", ("compressed-y-%d" % (int(pt.y()) & 1), int(pt.x()).to_bytes(32, "big")))
+
+
+def reencode_signature(signature, alg: Optional[str] = None, r_form: Optional[str] = None) -> Optional[tuple]:
+    """The same r, s octets under another Signature CHOICE / point form (None when the value has no r octets)."""
+    try:
+        val = signature[1]
+        rs = val["rSig"]
+        if isinstance(rs, (bytes, bytearray)):
+            r = bytes(rs)
+        elif rs[0] == "fill":
+            return None
+        elif isinstance(rs[1], dict):
+            r = rs[1]["x"]
+        else:
+            r = rs[1]
+        cur_form = "x-only" if isinstance(rs, (bytes, bytearray)) else ("uncompressed" if isinstance(rs[1], dict) else rs[0])
+        return crafted_signature(alg or signature[0], r_form or cur_form, r, val["sSig"])
+    except Exception:
+        return None
+
+
 def _set_path(obj, path: Sequence, value):
     """Functional update through dicts, lists and CHOICE tuples (index 1 = chosen value)."""
     if not path:
@@ -1160,6 +1219,42 @@ class Forger:
         f = self.edited(role, i, ["toBeSigned", "verifyKeyIndicator"], ("verificationKey", public_key_value(sk)), "key-swapped")
         f.key = sk
         return f
+
+    # ---- crafted encodings: attacker key, the genuine issuer merely NAMED, signature octets in an unusual CHOICE / point form
+    def crafted(self, role: str = "at", i: int = 0, alg: str = "ecdsaNistP256Signature", r_form: str = "compressed-y-0",
+                rs: str = "random", key_form: str = "uncompressedP256", tag: Any = 0, own_tbs: bool = False,
+                psids=DEFAULT_PSIDS) -> Forged:
+        """Certificate with the attacker's public key that names the genuine issuer (AA for at, root for aa) and carries
+        signature octets that were never produced by the issuer: random ones, or those of the genuine certificate (`rs` =
+        "copied"), encoded as Signature CHOICE `alg` with r in point form `r_form`.  toBeSigned: the genuine certificate's
+        (role, i) with the key replaced, or (own_tbs) a fresh ticket for `psids`."""
+        p = self.pki
+        gd, _ = as_cert(p.bytes_of(role, i))
+        issuer = p.root_bytes if role == "aa" else p.aa_bytes
+        sk = self.key("crafted", role, i, alg, r_form, rs, key_form, tag, own_tbs)
+        if own_tbs and role == "at":
+            tbs = make_tbs(None, p.now, ("years", 10), app_psids=psids)
+        else:
+            tbs = copy.deepcopy(gd["toBeSigned"])
+        tbs["verifyKeyIndicator"] = ("verificationKey", public_key_value_form(sk, "uncompressedP256" if key_form == "uncompressedP256" else "compressed"))
+        if rs == "copied":
+            gs = gd["signature"][1]
+            r, s = gs["rSig"][1], gs["sSig"]
+        else:
+            r, s = _h(self.seed, "crafted-r", role, i, tag), _h(self.seed, "crafted-s", role, i, tag)
+        sig = crafted_signature(alg, r_form, r, s)
+        b = encode_cert({"version": 3, "type": "explicit", "issuer": ("sha256AndDigest", hashed_id8(issuer)), "toBeSigned": tbs,
+                         "signature": sig})
+        return Forged("crafted-encoding", b, role, sk, issuer, False, note="%s/%s/%s/%s" % (alg, r_form, rs, key_form))
+
+    def message_crafted_signature(self, payload: bytes, psid: int, generation_time: Optional[int], i: int = 0,
+                                  signer_form: str = "certificate", alg: str = "ecdsaNistP256Signature", r_form: str = "compressed-y-0",
+                                  tag: Any = 0, **kw) -> bytes:
+        """Message naming / carrying genuine ticket i whose signature octets are random, encoded as CHOICE `alg` with r in
+        point form `r_form` (the attacker does not own the ticket's key)."""
+        enc = self.message(payload, psid, generation_time, self.key("crafted-msg", tag), self.pki.ticket_bytes[i], signer_form, **kw)
+        sig = crafted_signature(alg, r_form, _h(self.seed, "crafted-msg-r", i, tag), _h(self.seed, "crafted-msg-s", i, tag))
+        return edit_message(enc, ["content", 1, "signature"], sig)
 
     # ---- messages
     def message(self, payload: bytes, psid: int, generation_time: Optional[int], key: ecdsa.SigningKey, cert=None,
